@@ -38,12 +38,19 @@ class Sandbox:
 
     def mkdir(self, rel):
         p = self.path(rel)
+        parent = os.path.dirname(p)
+        if parent and not os.path.isdir(parent) and os.path.commonpath([parent, self.root]) == self.root and parent != self.root:
+            self.mkdir(os.path.relpath(parent, self.root))
         os.makedirs(p, exist_ok=True)
         self._stamp(p)
         self._touch_parents(p)
 
     def write(self, rel, mapping, fmt='yaml'):
         p = self.path(rel)
+        d = os.path.dirname(p)
+        if not os.path.isdir(d):
+            # directories created on the way get sandbox times too (the real clock is far ahead of the sandbox clock)
+            self.mkdir(os.path.relpath(d, self.root))
         os.makedirs(os.path.dirname(p), exist_ok=True)
         with open(p, 'w') as f:
             if mapping is None:
@@ -240,6 +247,44 @@ def c09(tier='quick', seed=0):
                             sb.close()
                         if R.full:
                             return R.d
+    # the layering holds for the files as they are NOW: an enforcer whose first load found no policy file and directories
+    # that exist but hold nothing loadable (empty, only a dot-file, only a sub-directory) picks the layers up when they appear
+    for start in ('empty', 'dot-file', 'sub-directory', 'missing-dir'):
+        for later in ('dir-file', 'main-file', 'both'):
+            sb = Sandbox()
+            try:
+                if start != 'missing-dir':
+                    sb.mkdir('pol.d')
+                if start == 'dot-file':
+                    sb.write('pol.d/.hidden.yaml', {'p:a': 'role:hidden'})
+                if start == 'sub-directory':
+                    sb.write('pol.d/sub/x.yaml', {'p:a': 'role:sub'})
+                conf = sb.conf(policy_file='policy.yaml', policy_dirs=['pol.d'])
+                e = policy.Enforcer(conf)
+                e.register_default(policy.RuleDefault('p:a', 'role:default_a'))
+                e.register_default(policy.RuleDefault('p:b', 'role:default_b'))
+                steps = [('first load', {'p:a': 'role:default_a', 'p:b': 'role:default_b'})]
+                outcome(e.load_rules)
+                want = {'p:a': 'role:default_a', 'p:b': 'role:default_b'}
+                if later in ('main-file', 'both'):
+                    sb.write('policy.yaml', {'p:b': 'role:main_b', 'p:a': 'role:main_a'})
+                    want.update({'p:b': 'role:main_b', 'p:a': 'role:main_a'})
+                if later in ('dir-file', 'both'):
+                    sb.write('pol.d/10-ops.yaml', {'p:a': 'role:dir_a'})
+                    want['p:a'] = 'role:dir_a'
+                bad = None
+                for rnd in (1, 2):
+                    got = outcome(e.enforce, 'p:a', {}, {'roles': [want['p:a'][5:]]})
+                    have = snapshot_rules(e)
+                    if got[0] != 'ret' or not got[1] or {k: have.get(k) for k in want} != want:
+                        bad = ('first load with no policy file and a policy directory that is %s, then %s appeared: the effective '
+                               'policy is %r, the layers give %r (enforce call %d: %r)' % (start, later, {k: have.get(k) for k in want}, want, rnd, got[:2]))
+                        break
+                R.case(('late-layers', start, later), bad)
+            finally:
+                sb.close()
+            if R.full:
+                return R.d
     return R.d
 
 
@@ -250,12 +295,13 @@ FILES = ['policy.yaml', 'd1/x.yaml', 'd1/y.yaml', 'd2/z.yaml']
 def mk_defaults(kind):
     from oslo_policy import policy
     if kind == 'plain':
-        return [policy.RuleDefault('p:a', 'role:da'), policy.RuleDefault('p:b', 'role:db')]
+        return [policy.RuleDefault('p:a', 'role:da'), policy.RuleDefault('p:b', 'role:db'),
+                policy.RuleDefault('p:ref', 'rule:p:a or role:dr')]
     with warnings.catch_warnings():
         warnings.simplefilter('ignore')
         dep = policy.DeprecatedRule('p:old', 'role:oldrole', deprecated_reason='r', deprecated_since='s')
         return [policy.RuleDefault('p:a', 'role:da or role:dz', deprecated_rule=dep),
-                policy.RuleDefault('p:b', 'role:db')]
+                policy.RuleDefault('p:b', 'role:db'), policy.RuleDefault('p:ref', 'not rule:p:a')]
 
 
 _LAST = {}      # (sandbox root, file) -> the mapping last written there (survives a deletion): what 'restore' writes back
@@ -283,14 +329,29 @@ def apply_op(sb, op, counter):
         sb.delete(f)
 
 
-def fresh_view(sb, dirs, defaults, **over):
+def fresh_view(sb, dirs, defaults, decisions=False, **over):
     from oslo_policy import policy
     conf = sb.conf(policy_file='policy.yaml', policy_dirs=dirs, **over)
     e = policy.Enforcer(conf)
     for d in defaults:
         e.register_default(d)
     e.load_rules()
+    if decisions:
+        snap = snapshot_rules(e)
+        return snap, decide_all(e, snap)
     return snapshot_rules(e)
+
+
+def decide_all(e, snap):
+    """decisions of enforcer e for every name of the printed rule store `snap` and every single role mentioned in it"""
+    import re
+    roles = sorted({m for v in snap.values() for m in re.findall(r'role:(\w+)', v)})[:8]
+    out = {}
+    for name in sorted(snap):
+        for r in roles:
+            got = outcome(e.enforce, name, {}, {'roles': [r]})
+            out[(name, r)] = bool(got[1]) if got[0] == 'ret' else 'raised ' + got[1]
+    return out
 
 
 def c10(tier='quick', seed=0):
@@ -357,12 +418,20 @@ def c10(tier='quick', seed=0):
                             if got[0] != 'ret':
                                 bad = 'step %d %s raised %s: %s' % (step, op[0], got[1], got[2])
                                 break
-                            want = fresh_view(sb, dirs, mk_defaults(dk), enforce_new_defaults=False)
+                            want, want_dec = fresh_view(sb, dirs, mk_defaults(dk), decisions=True, enforce_new_defaults=False)
                             have = snapshot_rules(e)
                             if have != want:
                                 diff = {k: (have.get(k), want.get(k)) for k in set(have) | set(want) if have.get(k) != want.get(k)}
                                 bad = 'after %r the long-lived enforcer differs from a fresh one (long-lived, fresh): %r' % (
                                     seq[:step + 1], diff)
+                                break
+                            # the same rule store must also DECIDE the same (a default that refers to another rule by name
+                            # follows that rule's current definition)
+                            have_dec = decide_all(e, have)
+                            if have_dec != want_dec:
+                                dd = {k: (have_dec.get(k), want_dec.get(k)) for k in want_dec if have_dec.get(k) != want_dec.get(k)}
+                                bad = 'after %r the long-lived enforcer decides differently from a fresh one on equal rule stores ' \
+                                      '((policy, role): (long-lived, fresh)): %r' % (seq[:step + 1], dd)
                                 break
                         else:
                             apply_op(sb, op, counter)
@@ -546,7 +615,7 @@ def c11(tier='quick', seed=0):
     subsets = [list(c) for k in range(len(roles_all) + 1) for c in itertools.combinations(roles_all, k)]
     ci11 = 0
     for renamed, same_str, flag, new_ovr, old_ovr, where, shared, hist, quiet_warn in itertools.product(
-            [True, False], [True, False], [True, False], [False, True], ['absent', 'arbitrary', 'alias'],
+            [True, False], [True, False], [True, False], [False, True], ['absent', 'arbitrary', 'alias', 'same-as-old-default'],
             ['main', 'dir', 'dironly'], [False, True], ['fresh', 'overrides-removed', 'old-name-still-registered', 'flag-flipped',
                                                         'overrides-added'], [False, True]):
         ci11 += 1
@@ -569,7 +638,10 @@ def c11(tier='quick', seed=0):
                 new_str = 'role:new or role:ovn' if hist == 'flag-flipped' else 'role:new'
                 old_str = 'role:new' if same_str else 'role:old'
                 dep = policy.DeprecatedRule(old_name, old_str, deprecated_reason='r', deprecated_since='s')
-                defaults = [policy.RuleDefault('svc:new', new_str, deprecated_rule=dep)]
+                # every third row: the successor is itself already scheduled for removal (a legal combination; it changes
+                # which warnings are emitted, not the table)
+                extra = dict(deprecated_for_removal=True, deprecated_reason='going away', deprecated_since='t') if ci11 % 3 == 0 else {}
+                defaults = [policy.RuleDefault('svc:new', new_str, deprecated_rule=dep, **extra)]
                 if hist == 'old-name-still-registered':
                     # the service still registers the old name as a policy of its own, BEFORE its successor: its
                     # default is not an operator override and must not influence the successor
@@ -583,6 +655,9 @@ def c11(tier='quick', seed=0):
                 content[old_name] = 'role:ovr'
             elif old_ovr == 'alias':
                 content[old_name] = 'rule:svc:new'
+            elif old_ovr == 'same-as-old-default':
+                # the operator pins the old behaviour by writing the old default under the old name: an override like any
+                content[old_name] = '(%s)' % old_str if flag else old_str
             sb.mkdir('d1')
             conf = sb.conf(policy_file='policy.yaml', policy_dirs=['d1'],
                            enforce_new_defaults=(not flag) if hist == 'flag-flipped' else flag)
@@ -635,7 +710,7 @@ def c11(tier='quick', seed=0):
                     # an override under the old name governs unless it is merely the alias of *this* new name
                     if ov.startswith('rule:'):
                         return want_for(ov[5:], 'new', roles)
-                    return ov[5:] in rs
+                    return ov.strip('()')[5:] in rs
                 base = new_default in rs or (hist == 'flag-flipped' and name == 'svc:new' and 'ovn' in rs)
                 if not flag and old_str != ('role:' + new_default):
                     return base or (old_str[5:] in rs)
